@@ -166,3 +166,22 @@ CHECKS["C16"] = dict(
     design_ref="DESIGN.md 4 C16",
     assumptions=["std::map / std::vector<mpz_class> models are correct"],
 )
+
+CHECKS["C08"] = dict(
+    title="Widenings are upper bounds, well defined on values, and force convergence",
+    quick=T([("c08_widen", 1)], cases=40000, secs=45),
+    thorough=T([("c08_widen", 1)], cases=1000000, secs=600, flavour="san"),
+    rule="case = adversarial ascending chain (each step joins a point/ray placed just outside a bounding constraint of the current iterate, with "
+         "shrinking increments) iterated with one widening: H79 / BHRZ03 on C and NNC polyhedra, H79 / BHMZ05 / CC76 on BD shapes and octagons "
+         "(mpq), CC76 on rational boxes, congruence / generator widening on grids, BGP99 / BHZ03 on powersets of boxes; modes: plain chain, "
+         "tokens, limited, bounded. Oracles (exact reference geometry / lattice model): result contains the larger argument; same result for the "
+         "same pair rebuilt through other histories (not for NNC polyhedra); certificate strictly decreases at every non-stationary step "
+         "(H79/BHRZ03/Grid certificates) or the number of non-stationary steps stays within the finite-bound budget (shapes, boxes); tokens: "
+         "receiver unchanged and one token consumed iff plain widening loses precision; limited/bounded: between the larger argument and the "
+         "plain widening, keeping each supplied constraint the larger argument satisfies. Non-trivial: the widening enlarged the argument and the chain had >= 3 non-stationary steps (or the token/limited case lost precision).",
+    technique="property-based testing (adversarial chain generation, metamorphic representation-independence, certificate monotonicity oracle)",
+    level_text="Generated-chain exploration; convergence is checked through certificate monotonicity and bounded non-stationary steps on finite chains.",
+    level_note="Finite convergence over all infinite chains is a liveness statement: only its finitely checkable consequences are decided. dim <= 3.",
+    design_ref="DESIGN.md 4 C08",
+    assumptions=["reference geometry / lattice model correct", "NNC widenings act on the representation (definitions.dox): no value-dependence check"],
+)
